@@ -3,7 +3,7 @@
    tick from states whose device inputs are equal as dictionaries, on inputs equal as dictionaries,
    produce outputs equal as dictionaries, the same callback, related observations and related states. *)
 From TV Require Import Base Model.Wiring Model.Ticker Model.Component Model.Sim
-  Proofs.WiringP Proofs.TickerP Proofs.SimP Proofs.NonInterfP Proofs.FrameP Proofs.LatestP Proofs.ExtentP Proofs.EqvP Proofs.InlineP.
+  Proofs.WiringP Proofs.TickerP Proofs.SimP Proofs.NonInterfP Proofs.FrameP Proofs.AgreeP Proofs.LatestP Proofs.ExtentP Proofs.EqvP Proofs.ParDevP.
 Open Scope Z_scope.
 
 Definition SR (D : list comp) (L : list positive) (s s' : sstate) : Prop :=
@@ -62,10 +62,10 @@ Record CR (D : list comp) (L : list positive) (a a' : core) : Prop := {
 }.
 
 Definition inner_eqv (D : list comp) (L : list positive)
-  (inner : positive -> Z -> values -> sstate -> sstate * values * option Z * list obs) (lv' : positive) : Prop :=
+  (inner inner' : positive -> Z -> values -> sstate -> sstate * values * option Z * list obs) (lv' : positive) : Prop :=
   forall t chg chg' s s', SR D L s s' -> eqv chg chg' -> NoDup (keys chg) -> NoDup (keys chg') ->
     let '(s2, o, ca, ob) := inner lv' t chg s in
-    let '(s2', o', ca', ob') := inner lv' t chg' s' in
+    let '(s2', o', ca', ob') := inner' lv' t chg' s' in
     eqv o o' /\ NoDup (keys o) /\ NoDup (keys o') /\ ca' = ca /\ obs_rel ob ob' /\ SR D L s2 s2'.
 
 Lemma eqv_of_pd' a a' y : (forall q, pd a' y q = pd a y q) -> eqv (get_d y (co_in a)) (get_d y (co_in a')).
@@ -78,13 +78,13 @@ Proof.
   rewrite !wake_of_set_wake_other by exact Hne. exact X.
 Qed.
 
-Lemma step_cong D L inner lv conns time roots ext ext' a a' c k :
+Lemma step_cong D L inner inner' lv conns time roots ext ext' a a' c k :
   single_source conns -> In lv L ->
   (c <> ext_id -> c <> exp_id -> k = KDev -> In c D) ->
-  (forall lv', k = KSys lv' -> inner_eqv D L inner lv') ->
+  (forall lv', k = KSys lv' -> inner_eqv D L inner inner' lv') ->
   eqv ext ext' -> NoDup (keys ext) -> NoDup (keys ext') ->
   CR D L a a' ->
-  CR D L (step' devf inner lv conns time roots ext a (c, k)) (step' devf inner lv conns time roots ext' a' (c, k)).
+  CR D L (step' devf inner lv conns time roots ext a (c, k)) (step' devf inner' lv conns time roots ext' a' (c, k)).
 Proof.
   intros Hss Hlv Hdev Hsys Hext Hnd Hnd' HR. destruct HR as [Hs Hpd Hok Hok' Hout Houtnd Hobs].
   assert (HR : CR D L a a') by (constructor; assumption).
@@ -103,7 +103,7 @@ Proof.
     { constructor; cbn [co_s co_in co_out co_obs]; try assumption. split; [apply Hok | apply Hok']. }
     pose proof (Hsys lv' eq_refl time (get_d c (co_in a)) (get_d c (co_in a')) (co_s a) (co_s a') Hs Hinp (Hok c) (Hok' c)) as Hi.
     destruct (inner lv' time (get_d c (co_in a)) (co_s a)) as [[[s1 ch] ca] ob1].
-    destruct (inner lv' time (get_d c (co_in a')) (co_s a')) as [[[s1' ch'] ca'] ob1'].
+    destruct (inner' lv' time (get_d c (co_in a')) (co_s a')) as [[[s1' ch'] ca'] ob1'].
     destruct Hi as [Ech [Nch [Nch' [Eca [Eob Hs1]]]]]. subst ca'.
     constructor; cbn [co_s co_in co_out co_obs]; try assumption.
     - destruct ca as [w|]; [|exact Hs1]. rewrite (proj1 (proj2 Hs1 lv Hlv)). apply SR_set_wake; assumption.
@@ -127,7 +127,7 @@ Proof.
     destruct (Pos.eqb_spec exp_id ext_id) as [E|_]; [discriminate|]. rewrite Pos.eqb_refl.
     constructor; cbn [co_s co_in co_out co_obs]; try assumption. split; [apply Hok | apply Hok']. }
   specialize (Hdev He Hx eq_refl).
-  destruct (par_dev devf Hdev_nd Hdev_ext time inner inner lv lv conns conns roots roots ext ext' a a' c He Hx
+  destruct (par_dev devf Hdev_nd Hdev_ext time inner inner' lv lv conns conns roots roots ext ext' a a' c He Hx
               (proj1 Hs c Hdev) Hinp (Hok c) (Hok' c) eq_refl) as [[EN EF]|[ch [ca [iN [iF [Hch [Hieq [HeN [HeF Hdx]]]]]]]]].
   - rewrite EN, EF. exact HR.
   - assert (PN := pd_after time lv conns a _ c ch ca iN HeN). assert (PF := pd_after time lv conns a' _ c ch ca iF HeF).
@@ -150,13 +150,13 @@ Proof.
       constructor; [|constructor]. split; [reflexivity | exact Hieq].
 Qed.
 
-Lemma fold_cong D L inner lv conns time roots ext ext' : forall l a a',
+Lemma fold_cong D L inner inner' lv conns time roots ext ext' : forall l a a',
   single_source conns -> In lv L ->
   (forall c k, In (c, k) l -> c <> ext_id -> c <> exp_id -> k = KDev -> In c D) ->
-  (forall c lv', In (c, KSys lv') l -> inner_eqv D L inner lv') ->
+  (forall c lv', In (c, KSys lv') l -> inner_eqv D L inner inner' lv') ->
   eqv ext ext' -> NoDup (keys ext) -> NoDup (keys ext') ->
   CR D L a a' ->
-  CR D L (fold_left (step' devf inner lv conns time roots ext) l a) (fold_left (step' devf inner lv conns time roots ext') l a').
+  CR D L (fold_left (step' devf inner lv conns time roots ext) l a) (fold_left (step' devf inner' lv conns time roots ext') l a').
 Proof.
   induction l as [|[c k] r IH]; intros a a' Hss Hlv Hdev Hsys He Hn Hn' HR; [exact HR|]. cbn [fold_left].
   apply IH; try assumption; [intros c0 k0 Hi; apply Hdev; right; exact Hi | intros c0 lv0 Hi; apply (Hsys c0 lv0); right; exact Hi|].
@@ -186,32 +186,30 @@ Proof.
       destruct (memb lv (s_ticked s)); [exact Z|]. cbn [memb existsb]. destruct (Pos.eqb_spec l lv); [contradiction|]. exact Z.
 Qed.
 
-Hypothesis Hss_all : forall lv, single_source (l_conns (level_of cfg lv)).
-
-(* a nested tick respects dictionary equality *)
-Theorem on_tick_level_eqv : forall f lv,
-  inner_eqv (devices_below cfg f lv) (levels_below cfg f lv) (on_tick_level cfg devf f) lv.
+(* a nested tick respects dictionary equality -- also between two configurations that coincide on the subtree *)
+Theorem on_tick_level_eqv2 cfg' : forall f lv, same_below cfg cfg' f lv ->
+  (forall l, In l (levels_below cfg f lv) -> single_source (l_conns (level_of cfg l))) ->
+  inner_eqv (devices_below cfg f lv) (levels_below cfg f lv) (on_tick_level cfg devf f) (on_tick_level cfg' devf f) lv.
 Proof.
-  induction f as [|f IH]; intros lv time chg chg' s s' Hsr Hch Hn Hn'.
+  induction f as [|f IH]; intros lv Hsb Hss_all time chg chg' s s' Hsr Hch Hn Hn'.
   - cbn [on_tick_level]. split; [intros q; reflexivity|]. split; [constructor|]. split; [constructor|]. split; [reflexivity|]. split; [constructor | exact Hsr].
-  - set (D := devices_below cfg (S f) lv). set (L := levels_below cfg (S f) lv).
+  - destruct Hsb as [Elv Hsub].
+    set (D := devices_below cfg (S f) lv). set (L := levels_below cfg (S f) lv).
     assert (Hlv : In lv L) by (left; reflexivity).
     destruct (proj2 Hsr lv Hlv) as [Ew [Ei Et]].
-    cbn [on_tick_level]. rewrite Ew, Ei, Et.
+    cbn [on_tick_level]. rewrite Elv, Ew, Ei, Et.
     set (roots := int_of s lv ++ _).
     set (wrest := filter _ (wake_of s lv)).
     pose proof (SR_prologue D L s s' lv wrest roots time Hlv Hsr) as H1.
-    rewrite !tick_with_core.
+    rewrite !tick_with_core. rewrite Elv.
     set (a0 := {| co_s := log_tick (mark_ticked (set_int (set_wake s lv wrest) lv []) lv) lv time roots; co_in := []; co_out := []; co_obs := [] |}).
     set (a0' := {| co_s := log_tick (mark_ticked (set_int (set_wake s' lv wrest) lv []) lv) lv time roots; co_in := []; co_out := []; co_obs := [] |}).
     assert (HR0 : CR D L a0 a0').
     { constructor; cbn [a0 a0' co_s co_in co_out co_obs]; [exact H1 | reflexivity | intros z; cbn; constructor | intros z; cbn; constructor
                                                          | intros q; reflexivity | split; constructor | constructor]. }
-    pose proof (fold_cong D L (on_tick_level cfg devf f) lv (l_conns (level_of cfg lv)) time roots chg chg'
-                  (all_of (level_of cfg lv)) a0 a0' (Hss_all lv) Hlv) as HF.
     assert (HF' : CR D L (fold_left (step' devf (on_tick_level cfg devf f) lv (l_conns (level_of cfg lv)) time roots chg) (all_of (level_of cfg lv)) a0)
-                         (fold_left (step' devf (on_tick_level cfg devf f) lv (l_conns (level_of cfg lv)) time roots chg') (all_of (level_of cfg lv)) a0')).
-    { apply HF; try assumption.
+                         (fold_left (step' devf (on_tick_level cfg' devf f) lv (l_conns (level_of cfg lv)) time roots chg') (all_of (level_of cfg lv)) a0')).
+    { apply fold_cong; try assumption; [apply Hss_all; left; reflexivity | |].
       - intros c k Hi He Hx Ek. subst k. unfold all_of in Hi. destruct Hi as [E|Hi]; [inversion E; subst; contradiction|].
         apply in_app_iff in Hi. destruct Hi as [Hi|[E|[]]]; [apply in_devices_below_dev; exact Hi | inversion E; subst; contradiction].
       - intros c lv' Hi. unfold all_of in Hi. destruct Hi as [E|Hi]; [discriminate|].
@@ -219,15 +217,23 @@ Proof.
         intros t c1 c1' s0 s0' Hsr0 Hc1 Hn1 Hn1'.
         assert (HsubD : forall x, In x (devices_below cfg f lv') -> In x D) by (intros x Hx; eapply devices_below_sub; eassumption).
         assert (HsubL : forall x, In x (levels_below cfg f lv') -> In x L) by (intros x Hx; eapply levels_below_sub; eassumption).
-        pose proof (IH lv' t c1 c1' s0 s0' (SR_mono D _ L _ s0 s0' HsubD HsubL Hsr0) Hc1 Hn1 Hn1') as Hih.
+        pose proof (IH lv' (Hsub c lv' Hi) (fun l Hl => Hss_all l (HsubL l Hl)) t c1 c1' s0 s0' (SR_mono D _ L _ s0 s0' HsubD HsubL Hsr0) Hc1 Hn1 Hn1') as Hih.
         pose proof (on_tick_level_framed cfg devf f lv' t c1 s0) as Hf1.
-        pose proof (on_tick_level_framed cfg devf f lv' t c1' s0') as Hf2.
+        pose proof (on_tick_level_framed cfg' devf f lv' t c1' s0') as Hf2.
+        destruct (below_eq cfg cfg' f lv' (Hsub c lv' Hi)) as [EL ED]. rewrite EL, ED in Hf2.
         destruct (on_tick_level cfg devf f lv' t c1 s0) as [[[s2 o] ca] ob].
-        destruct (on_tick_level cfg devf f lv' t c1' s0') as [[[s2' o'] ca'] ob'].
+        destruct (on_tick_level cfg' devf f lv' t c1' s0') as [[[s2' o'] ca'] ob'].
         destruct Hih as [Eo [No [No' [Eca [Eob Hsr2]]]]]. repeat (split; [assumption|]).
         apply (SR_combine D L _ _ s0 s0' s2 s2' ob ob' Hsr0 Hsr2 Hf1 Hf2). }
     destruct HF' as [Fs Fpd Fok Fok' Fout Foutnd Fobs]. cbn [fst snd].
     split; [exact Fout|]. split; [apply Foutnd|]. split; [apply Foutnd|].
     split; [rewrite (proj1 (proj2 Fs lv Hlv)); reflexivity|]. split; [exact Fobs | exact Fs].
 Qed.
+
+Lemma same_below_refl : forall f lv, same_below cfg cfg f lv.
+Proof. induction f as [|f IH]; intros lv; [exact I|]. split; [reflexivity | intros c lv' _; apply IH]. Qed.
+
+Theorem on_tick_level_eqv : (forall lv, single_source (l_conns (level_of cfg lv))) -> forall f lv,
+  inner_eqv (devices_below cfg f lv) (levels_below cfg f lv) (on_tick_level cfg devf f) (on_tick_level cfg devf f) lv.
+Proof. intros Hss f lv. apply on_tick_level_eqv2; [apply same_below_refl | intros l _; apply Hss]. Qed.
 End Cong.
